@@ -387,4 +387,41 @@ PROPS = {
         "assumptions": ["serde's default Visitor methods by contract (borrowed/owned variants forward; others are "
                         "invalid_type errors); the format crates are exercised, not modelled"],
     },
+    "C17": {
+        "modules": [T + "C17"],
+        "theorems": [(T + "C17.invariant_sites", T + "C17"),
+                     (T + "C17.invariant_tail_size", T + "C17"),
+                     (T + "C17.invariant_length", T + "C17"),
+                     (T + "C17.invariant_try_from", T + "C17"),
+                     (T + "C17.stream_has_no_len_invariant", T + "C17"),
+                     (T + "C17.misreporting_reader_panics", T + "C17"),
+                     (T + "C17.misreporting_reader_ub_counterexample", T + "C17"),
+                     (T + "C17.unchecked_calls", T + "C17"),
+                     (T + "C17.utf8_ok", T + "C17"),
+                     (T + "C17.loads_in_bounds", T + "C17"),
+                     (T + "C17.aggregation_chunks", T + "C17"),
+                     (T + "C17.generate_total", T + "C17"),
+                     (T + "C17.quartile_panics_iff", T + "C17"),
+                     (T + "C17.api_total", T + "C17"),
+                     (T + "C17.unsafe_same_result", T + "C17")],
+        "bv_decide_theorems": {'TlshVerif.Theorems.C17.api_total'},
+        "extract_keys": ["invariant sites", "load sites", "aggregation chunk", "hash_stream_common", "kernel"],
+        "spec_is_property": True,
+        "panic_concrete": True,
+        "streams": {
+            "quick": [('unsafe', 'gen', 600), ('unsafe', 'state', 600), ('unsafe', 'hist', 300), ('unsafe', 'parse', 1500), ('unsafe', 'fmt', 150), ('unsafe', 'frombin', 300), ('unsafe', 'store', 2), ('unsafe', 'acc', 300), ('unsafe', 'cmp', 1000), ('unsafe', 'body', 600), ('unsafe', 'len', 1000), ('unsafe', 'stream', 400), ('unsafe', 'cmpstr', 800), ('default-dev', 'gen', 300), ('default-dev', 'state', 300), ('default-dev', 'hist', 150), ('default-dev', 'parse', 750), ('default-dev', 'fmt', 75), ('default-dev', 'frombin', 150), ('default-dev', 'store', 1), ('default-dev', 'acc', 150), ('default-dev', 'cmp', 500), ('default-dev', 'body', 300), ('default-dev', 'len', 500), ('default-dev', 'stream', 200), ('default-dev', 'cmpstr', 400), ('unsafe-dev', 'gen', 300), ('unsafe-dev', 'state', 300), ('unsafe-dev', 'hist', 150), ('unsafe-dev', 'parse', 750), ('unsafe-dev', 'fmt', 75), ('unsafe-dev', 'frombin', 150), ('unsafe-dev', 'store', 1), ('unsafe-dev', 'acc', 150), ('unsafe-dev', 'cmp', 500), ('unsafe-dev', 'body', 300), ('unsafe-dev', 'len', 500), ('unsafe-dev', 'stream', 200), ('unsafe-dev', 'cmpstr', 400), ('unsafe', 'lie', 0), ('unsafe-dev', 'lie', 0), ('default', 'lie', 0), ('default-dev', 'lie', 0), ('unsafe-strict', 'serde', 150), ('unsafe-strict', 'frombin', 300)],
+            "thorough": [('unsafe', 'gen', 12000), ('unsafe', 'state', 12000), ('unsafe', 'hist', 6000), ('unsafe', 'parse', 30000), ('unsafe', 'fmt', 3000), ('unsafe', 'frombin', 6000), ('unsafe', 'store', 40), ('unsafe', 'acc', 6000), ('unsafe', 'cmp', 20000), ('unsafe', 'body', 12000), ('unsafe', 'len', 20000), ('unsafe', 'stream', 8000), ('unsafe', 'cmpstr', 16000), ('default-dev', 'gen', 4800), ('default-dev', 'state', 4800), ('default-dev', 'hist', 2400), ('default-dev', 'parse', 12000), ('default-dev', 'fmt', 1200), ('default-dev', 'frombin', 2400), ('default-dev', 'store', 16), ('default-dev', 'acc', 2400), ('default-dev', 'cmp', 8000), ('default-dev', 'body', 4800), ('default-dev', 'len', 8000), ('default-dev', 'stream', 3200), ('default-dev', 'cmpstr', 6400), ('unsafe-dev', 'gen', 4800), ('unsafe-dev', 'state', 4800), ('unsafe-dev', 'hist', 2400), ('unsafe-dev', 'parse', 12000), ('unsafe-dev', 'fmt', 1200), ('unsafe-dev', 'frombin', 2400), ('unsafe-dev', 'store', 16), ('unsafe-dev', 'acc', 2400), ('unsafe-dev', 'cmp', 8000), ('unsafe-dev', 'body', 4800), ('unsafe-dev', 'len', 8000), ('unsafe-dev', 'stream', 3200), ('unsafe-dev', 'cmpstr', 6400), ('optdef-dev', 'gen', 2400), ('optdef-dev', 'state', 2400), ('optdef-dev', 'hist', 1200), ('optdef-dev', 'parse', 6000), ('optdef-dev', 'fmt', 600), ('optdef-dev', 'frombin', 1200), ('optdef-dev', 'store', 8), ('optdef-dev', 'acc', 1200), ('optdef-dev', 'cmp', 4000), ('optdef-dev', 'body', 2400), ('optdef-dev', 'len', 4000), ('optdef-dev', 'stream', 1600), ('optdef-dev', 'cmpstr', 3200), ('unsafe', 'lie', 0), ('unsafe-dev', 'lie', 0), ('default', 'lie', 0), ('default-dev', 'lie', 0), ('unsafe-strict', 'serde', 3000), ('unsafe-strict', 'frombin', 10000), ('unsafe', 'bodyrows', 8), ('unsafe', 'len-sweep', 0)],
+        },
+        "rule": "the broad streams of the other properties re-run in the `unsafe` release build and in dev builds "
+                "(debug assertions + overflow checks) with and without `unsafe`; every case under catch_unwind; "
+                "`lie` = readers returning Ok(n) with n > buffer, each in a child process so aborts and signals are "
+                "observed; an observed panic/abort/signal anywhere except the documented cases is a violation",
+        "trusted_extra": ["bv_decide axioms inherited by api_total through C13/C02 (distance kernels)"],
+        "assumptions": [
+            "PARTIAL: absence of undefined behaviour inside compiled `unsafe` blocks (x86 intrinsics, pointer loads), "
+            "in LLVM's use of a false unreachable_unchecked, and in third-party unsafe code (hex-simd) cannot be "
+            "exhibited by the model; the claim is the listed obligations plus the dev/unsafe-build runs",
+            "AddressSanitizer / Miri are not part of the quick tier",
+        ],
+    },
 }
